@@ -150,3 +150,28 @@ REG.contract(
 # discharge within budget); the selection and ordering itself is proved on ChargingNetwork.constraint_current (C06 / C12), the rest is monitored.
 
 
+
+
+# ---------------------------------------------------------------------------- datetimes_array (C18)
+def _dta_post(old, new, ret):
+    """one timestamp per completed period; entry i shows the start's wall-clock reading (time zone dropped) plus i periods: entries are spaced by exactly
+    period x 60 seconds, fractional periods included"""
+    from pyvc.timelib import WALL
+    sim = old.sim
+    i = z3.Int("i!dta")
+    th = lambda r: new.field_of(r, "datetime", "theta")
+    return [
+        ("C18.one_timestamp_per_completed_period", ret.len == sim._iteration),
+        ("C18.entry_i_is_the_naive_start_plus_i_periods",
+         FA([i], z3.Implies(z3.And(i >= 0, i < sim._iteration), th(z3.Select(ret.v.arrs[0], i)) == WALL(sim.start.theta) + (sim.period * z3.ToReal(i)) * 60),
+            patterns=[z3.Select(ret.v.arrs[0], i)])),
+        ("C18.warns_exactly_when_events_are_still_pending", new.warnings - old.warnings == If(sim.event_queue._queue.len == 0, 0, 1)),
+    ]
+
+
+REG.contract(
+    A + "datetimes_array", params=dict(sim=Ref("Simulator")), ret=Seq(Ref("datetime")),
+    requires=[C("completed_periods", lambda s: s.sim._iteration >= 0)],
+    modifies=["alloc", ("datetime.theta", "FRESH"), "warnings"],
+    ensures=[C("C18.datetimes_array", _dta_post, props=("C18",))],
+)
